@@ -924,7 +924,13 @@ def ctype_facts(low):
         return low.resolve(base) + dims.replace(" ", "")
     decls = {sc: {n: res(t) for n, t in d.items()} for sc, d in low.decls.items()}
     funcs = {q: {"ret": res(f.rettype), "except": f.except_clause or "", "params": [[pn, res(pt)] for pn, pt, _ in f.params]} for q, f in low.funcs.items()}
-    return {"decls": decls, "funcs": funcs, "ctypedefs": {a: low.resolve(a) for a in low.ctypedefs}, "narrowing_calls": sorted(_narrowing_calls(low, res))}
+    import re as _re
+    # compiler directives that are no decorators: `# cython: boundscheck=False` header comments, and other names for the cython module
+    directives = sorted(" ".join(ln.split()) for ln in low.source.splitlines() if _re.match(r"^\s*#\s*(cython|distutils)\s*:", ln))
+    directives += sorted("cimport-as " + " ".join(ln.split()) for ln in low.source.splitlines()
+                         if _re.match(r"^\s*(cimport\s+cython\s+as\s+\w+|import\s+cython\s+as\s+\w+|from\s+cython\s+c?import\b)", ln))
+    return {"decls": decls, "funcs": funcs, "ctypedefs": {a: low.resolve(a) for a in low.ctypedefs}, "narrowing_calls": sorted(_narrowing_calls(low, res)),
+            "directives": directives}
 
 
 def _narrowing_calls(low, res):
@@ -1005,6 +1011,10 @@ def declared_types_keep_values(ctx, rel, rule="R0.declared-c-types"):
         n += 1
         ctx.ob(rule, rel, sc or "<module>", f"{len(rd)} typed names keep every value of their reference type", not bad,
                (f"`{bad[0][0]}` is declared {bad[0][1]} (was {bad[0][2]}): what is stored into it is truncated, narrowed or changes sign" if bad else ""), 1)
+    n += 1
+    ctx.ob(rule, rel, "<module>", "file-level compiler directives and names of the cython module", new.get("directives", []) == ref.get("directives", []),
+           f"the file-level directives changed from {ref.get('directives', [])} to {new.get('directives', [])}: bounds checks, wrap-around, division and "
+           "overflow behaviour of every function follow them", 1)
     extra = sorted(set(new["narrowing_calls"]) - set(ref.get("narrowing_calls", [])))
     n += 1
     ctx.ob(rule, rel, "<module>", "no typed argument is handed to a narrower typed parameter", not extra,
